@@ -8,6 +8,12 @@ Applies one break at a time to the worktree, runs
 `VERIF_REPO=/tmp/wt-c18 bin/vcheck C18 quick`, lists the violation keys that
 are not in the baseline (unchanged worktree) and restores the file.
 (The RDMA component layer has its own tool in selftest/c19_c18rdma.)
+
+Since /repo commit 37b88daa (command processor invalidates the L1 caches before
+every kernel) the breaks seed3-flush-only-gpus-owning-a-copied-page and
+cp-flush-skips-l1-vector-caches no longer change any result (stale L1 lines
+cannot survive into the next kernel); they are kept for older checkouts and
+report "exit 0 but no new key" on newer ones.
 """
 import json, glob, hashlib, os, subprocess, sys, time
 
@@ -20,6 +26,7 @@ KER = 'amd/driver/kernel.go'
 DRV = 'amd/driver/driver.go'
 CPM = 'amd/timing/cp/cpMiddleware.go'
 ALLOC = 'amd/driver/internal/memoryallocator.go'
+GRID = 'amd/kernels/gridbuilder.go'
 SEED3 = open('/verif/selftest/c18/seed3_flush_only_owners.diff').read() if os.path.exists('/verif/selftest/c18/seed3_flush_only_owners.diff') else None
 
 def nth(s, old, new, k):
@@ -69,6 +76,29 @@ M = [
  ('remap-odd-page-shares-frame-with-previous', ALLOC, lambda s: s.replace('			PAddr:    pAddrs[i],', '			PAddr:    pAddrs[i&^1],')),
  ('unified-kernarg-upload-only-for-first-gpu', KER, lambda s: s.replace('		d.EnqueueMemCopyH2D(queue, dKernArgData, newKernelArgs)\n		d.EnqueueMemCopyH2D(queue, dPacket, packet)', '		if i == 0 {\n			d.EnqueueMemCopyH2D(queue, dKernArgData, newKernelArgs)\n		}\n		d.EnqueueMemCopyH2D(queue, dPacket, packet)')),
  ('unified-wgfilter-lower-bound-exclusive', DRV, lambda s: s.replace('if flattenedID >= wgDist[currentGPUIndex] &&', 'if flattenedID > wgDist[currentGPUIndex] &&')),
+ ('seed5-countWG-stops-at-first-column-without-a-match', GRID, lambda s: s.replace("""	for i := 0; i < x; i++ {
+		for j := 0; j < y; j++ {""", """	for i := 0; i < x; i++ {
+		numBefore := b.numWG
+
+		for j := 0; j < y; j++ {""").replace("""					b.numWG++
+				}
+			}
+		}
+	}
+""", """					b.numWG++
+				}
+			}
+		}
+
+		if b.numWG > 0 && b.numWG == numBefore {
+			break
+		}
+	}
+""")),
+ ('wgfilter-row-stride-is-numWGY', DRV, lambda s: s.replace('					wg.IDY*int(numWGX) +', '					wg.IDY*int(numWGY) +')),
+ ('wgfilter-z-stride-doubled', DRV, lambda s: s.replace('wg.IDZ*int(numWGX)*int(numWGY) +', 'wg.IDZ*int(numWGX)*int(numWGY)*2 +')),
+ ('wgdist-total-ignores-z', DRV, lambda s: s.replace('totalWGCount := int(numWGX * numWGY * numWGZ)', '_ = numWGZ\n\ttotalWGCount := int(numWGX * numWGY)')),
+ ('wgdist-rows-from-workgroup-size-x', DRV, lambda s: s.replace('numWGY := (cmd.PacketArray[0].GridSizeY-1)/uint32(cmd.PacketArray[0].WorkgroupSizeY) + 1', 'numWGY := (cmd.PacketArray[0].GridSizeY-1)/uint32(cmd.PacketArray[0].WorkgroupSizeX) + 1')),
  ('magic-h2d-sizeLeftInPage-ignores-offset', GS, lambda s: nth(s, 'sizeLeftInPage := page.PageSize - (addr - page.VAddr)', 'sizeLeftInPage := page.PageSize', 0)),
  ('dma-h2d-sizeLeftInPage-ignores-offset', MC, lambda s: nth(s, 'sizeLeftInPage := page.PageSize - (addr - page.VAddr)', 'sizeLeftInPage := page.PageSize', 0)),
 ]
